@@ -1170,7 +1170,14 @@ class FortranBackend(BaseBackend):
         if stop < len(code):
             code_tmp = code[start:stop]
             ops = ["+", "-", "*", "/", "**", "^", "%", "<", ">", "==", "!=", "<=", ">="]
-            indices = [code_tmp.index(op) for op in ops if op in code_tmp]
+            def _first(op):
+                # first occurrence of `op` that is not the sign of a literal's exponent (7.6d-6, 1.0e+22)
+                i = code_tmp.find(op)
+                while i > 1 and op in ('+', '-') and code_tmp[i - 1] in 'dDeE' and (code_tmp[i - 2].isdigit() or
+                                                                                   code_tmp[i - 2] == '.'):
+                    i = code_tmp.find(op, i + 1)
+                return i
+            indices = [i for i in (_first(op) for op in ops if op in code_tmp) if i >= 0]
             if indices and max(indices) > 0:
                 return max(indices) + start
             idx = start
